@@ -113,7 +113,7 @@ def gen_shape(rng, small=False):
     return (a, b) if rng.random() < 0.5 else (b, a)
 
 
-def gen_map(seed, ny, nx, inv_ratio, nan_valid=0.01, blobs=True, smooth=False):
+def gen_map(seed, ny, nx, inv_ratio, nan_valid=0.01, blobs=True, smooth=False, dead_block=None):
     g = np.random.RandomState(seed % (1 << 31))
     if smooth:
         base = g.randint(-4, 5)
@@ -126,6 +126,13 @@ def gen_map(seed, ny, nx, inv_ratio, nan_valid=0.01, blobs=True, smooth=False):
         for _ in range(g.randint(0, 3)):
             r0, c0 = g.randint(0, ny), g.randint(0, nx)
             inv[r0:r0 + g.randint(1, 9), c0:c0 + g.randint(1, 9)] = True
+    if blobs and inv_ratio < 1.0 and max(ny, nx) > 112 and (dead_block or (dead_block is None and g.rand() < 0.35)):
+        # a whole cell of the internal block grid (and a little more) without any valid pixel, valid data after it: a
+        # block that is skipped, or whose result is dropped, must not shift or lose the blocks that follow
+        if nx >= ny:
+            inv[:, 0:100 + g.randint(3, 9)] = True
+        else:
+            inv[0:100 + g.randint(3, 9), :] = True
     iv = np.array(INVALID_FLAGS, dtype=np.uint16)[g.randint(0, len(INVALID_FLAGS), size=(ny, nx))]
     mask = np.where(inv, iv, mask).astype(np.uint16)
     # invalid pixels often carry the invalid_disparity (-9999 or NaN)
@@ -277,7 +284,7 @@ def run_median(ctx, model, p):
     import pandora.filter as flt  # pylint: disable=import-outside-toplevel
 
     ny, nx, w = p["ny"], p["nx"], p["w"]
-    disp, mask = gen_map(p["seed"], ny, nx, p["inv"], smooth=p["smooth"])
+    disp, mask = gen_map(p["seed"], ny, nx, p["inv"], smooth=p["smooth"], dead_block=p.get("dead"))
     ds = disp_dataset(disp, mask)
     f = flt.AbstractFilter(cfg={"filter_method": "median", "filter_size": w}, image_shape=(ny, nx), step=1)
     err = None
@@ -598,6 +605,9 @@ def gen_cases(rng, quick):
                       "suffix": rng.choice(["", "", "intervals"]), "seed": rng.randrange(1 << 30),
                       "inv": rng.choice([0.0, 0.2, 0.5])})
     cases.append({"filter": "mfi", "ny": 3, "nx": 9, "w": 7, "reg": False, "suffix": "", "seed": 5, "inv": 0.2})
+    # a whole cell of the block grid without any valid pixel, valid data after it (both orientations)
+    cases.append({"filter": "median", "ny": 52, "nx": 205, "w": 3, "seed": 77, "inv": 0.2, "smooth": False, "dead": True})
+    cases.append({"filter": "median", "ny": 205, "nx": 7, "w": 5, "seed": 78, "inv": 0.2, "smooth": True, "dead": True})
     return cases
 
 
